@@ -251,6 +251,7 @@ func defaultPolicy(ld *loaded, stubs map[string]*ssa.Function) *sym.Policy {
 		InterpretPkgs: []string{
 			repoMod,
 			"github.com/hannahhoward/go-pubsub",
+			"golang.org/x/sync/errgroup",
 			"github.com/filecoin-project/go-statemachine/fsm",
 			"github.com/ipld/go-ipld-prime/linking/cid",
 			"toy*",
@@ -494,6 +495,7 @@ func runWorker(ld *loaded, h *harness, stubs map[string]*ssa.Function, tier stri
 		MaxPaths:        optInt(h, tier, "paths", maxPaths),
 		Preemptive:      h.opts["preempt"] != "",
 		PreemptSyncOnly: h.opts["preempt"] == "sync",
+		Race:            h.opts["race"] != "",
 		Trace:           trace,
 		QueryMs:         map[string]int{"quick": 20000, "thorough": 120000}[tier],
 		CrossCheck:      []string{"cvc5"},
@@ -653,7 +655,7 @@ func report(prop, tier string, seed int, results []*harnessResult, start time.Ti
 			b, _ := json.MarshalIndent(v, "", " ")
 			os.WriteFile(path, b, 0o644)
 			ok, detail := replayNative(r.h, path)
-			if !ok && (r.h.opts["preempt"] != "" || r.h.opts["replay"] == "engine") {
+			if !ok && (r.h.opts["preempt"] != "" || r.h.opts["replay"] == "engine" || v.Kind == "race") {
 				if replayEngine(r.ld, r.h, r.stubs, v) {
 					ok = true
 					detail = "engine: reproduced by concrete interpretation of the real code's SSA with the counterexample inputs and the recorded schedule (the native Go scheduler cannot be forced into it; " + detail + ")"
@@ -764,7 +766,7 @@ func replayEngine(ld *loaded, h *harness, stubs map[string]*ssa.Function, v *sym
 	}
 	cfg := &sym.Config{Prog: ld.prog, Entry: h.fn, InitPkgs: []*ssa.Package{h.fn.Pkg}, Policy: pol,
 		LoopFuel: optInt(h, "quick", "fuel", 40), SchedBound: 1 << 20, Preemptive: h.opts["preempt"] != "", PreemptSyncOnly: h.opts["preempt"] == "sync",
-		FixedInputs: fixed, ForcedSched: sched, MaxPaths: 64}
+		FixedInputs: fixed, ForcedSched: sched, MaxPaths: 64, Race: h.opts["race"] != ""}
 	if pf := h.opts["preemptfn"]; pf != "" {
 		pol.PreemptFns = map[string]bool{}
 		for _, f := range strings.Split(pf, ",") {
